@@ -215,6 +215,7 @@ def run(chk, mode_filter=None, alg_filter=None, only_cells=False, ids=('T2', 'T2
         t5 = chk.rule('T5', 'submit_new_job: GCM bypass only for IMB_CIPHER_GCM, first stage by chain_order, then RESUBMIT', floor=16)
         t6 = chk.rule('T6', 'a cell that parks jobs in an out-of-order manager flushes the same manager', floor=400)
         run_t7(chk, P)
+        run_t11(chk, P)
         # asm side of T4: stage bits are OR-ed into job->status (rule J2 of C14, shared)
         from . import c14 as _c14
         _c14.run_j2(chk, P)
@@ -637,6 +638,46 @@ def _tab_reads(e, out, parent_call=None):
         v = e0.get(key)
         if isinstance(v, dict):
             _tab_reads(v, out, None)
+
+
+def run_t11(chk, P):
+    """a flush handler that is given the JOB (custom cipher / custom hash: nothing is ever queued for these stages) instead of an out-of-order
+    manager hands that job back only when it has just run the stage: complete_job() resubmits whatever a flush returns, so returning a job
+    whose stage bit is already set sends it into the manager of its OTHER stage a second time (the job then sits in several lanes)"""
+    t11 = chk.rule('T11', 'a FLUSH_JOB_* handler whose only argument is the job returns a non-NULL job only on the not-set edge of a test of '
+                          'job->status & IMB_STATUS_COMPLETED_{CIPHER,AUTH}: a job that already has this stage is waiting in another one', floor=9)
+    for tu in P.variant_tus():
+        vt = tu.split('__')[0]
+        for f in P.funcs(tu):
+            if not re.match(r'^FLUSH_JOB_\w+$', f.name) or len(f.params) != 1 or 'IMB_JOB' not in (f.params[0].get('type') or ''):
+                continue
+            dom = f.dominators()
+            for b, i, ev in f.events(('return',)):
+                v = ev.get('val')
+                if v is None or cf.evalc(v) == 0:
+                    continue
+                ok = False
+                for d in dom.get(b, ()):
+                    t = f.blocks[d].get('term')
+                    if d == b or not t or t['kind'] != 'IfStmt' or len(f.blocks[d]['succ']) != 2:
+                        continue
+                    c = cf.strip_casts(t.get('fullcond') or t.get('cond') or {})
+                    neg = False
+                    while isinstance(c, dict) and c.get('k') == 'un' and c['op'] == '!':
+                        c, neg = cf.strip_casts(c['e']), not neg
+                    if isinstance(c, dict) and c.get('k') == 'bin' and c['op'] in ('!=', '==') and cf.evalc(c['r']) == 0:
+                        neg = neg != (c['op'] == '==')
+                        c = cf.strip_casts(c['l'])
+                    if not (isinstance(c, dict) and c.get('k') == 'bin' and c['op'] == '&'):
+                        continue
+                    if not any(nd.get('k') == 'mem' and nd.get('f') == 'status' for nd in cf.walk(c)):
+                        continue
+                    notset = f.blocks[d]['succ'][0] if neg else f.blocks[d]['succ'][1]
+                    if notset is not None and (notset == b or notset in dom.get(b, ())):
+                        ok = True
+                t11.check(ok, '%s:%s@%s' % (vt, f.name, ev['loc'].split('/')[-1]), ev['loc'],
+                          '%s returns its job without having tested that the stage is still to do: for a job that already has it, complete_job() '
+                          'resubmits the job to its other stage, where it is already parked' % f.name)
 
 
 def run_t7(chk, P):
